@@ -65,7 +65,8 @@ REQUIRED_MONITORS = ["mesh-class", "vertex-coordinates", "connectivity", "high-o
 REQUIRED_REACH = ["more-than-127-cells", "interior-facet-flag-1", "two-tagged-facets-share-owner-cell", "several-subdomains-share-cell",
                   "second-order-curved", "hex-permutation", "docs-meshes-cycled", "oriented-boundary-loaded",
                   "boundary-and-interior-facets-in-one-tag", "format:gmsh41", "format:gmsh22", "format:vtk",
-                  "format:vtu", "format:meshio-object", "format:npz", "format:dict", "format:json"]
+                  "format:vtu", "format:meshio-object", "format:npz", "format:dict", "format:json",
+                  "tags:subdomains-only", "tags:boundaries-only"]
 ASSUMPTIONS = [
     "meshio (third party) reads back what it wrote for binary gmsh 2.2/4.1, vtk and vtu; ASCII gmsh is excluded "
     "because meshio 5.3.5 under NumPy 2 cannot re-read its own ASCII $ElementData",
@@ -115,6 +116,7 @@ class Tags:
         self.kinds = {}     # name -> generator kind
         self.arrays_sub = {}
         self.arrays_bnd = {}
+        self.only = None
 
     def add_sub(self, name, arr, kind):
         self.sub[name] = sorted(int(c) for c in arr)
@@ -230,6 +232,18 @@ def random_tags(rng, mesh, names=None, rich=True):
             tags.add_bnd(next(nxt), sel.astype(np.int32), np.zeros(sel.size, dtype=int), "ori-all-zero")
         elif r < 0.9:
             tags.add_bnd(next(nxt), np.array([], dtype=np.int32), None, "bnd-empty")
+    # meshes carrying one kind of tag only
+    r = rng.random()
+    if r < 0.12:
+        tags.bnd.clear()
+        tags.arrays_bnd.clear()
+        tags.kinds = {k: v for k, v in tags.kinds.items() if not k.startswith("b:")}
+        tags.only = "subdomains-only"
+    elif r < 0.24:
+        tags.sub.clear()
+        tags.arrays_sub.clear()
+        tags.kinds = {k: v for k, v in tags.kinds.items() if not k.startswith("s:")}
+        tags.only = "boundaries-only"
     return tags
 
 
@@ -621,6 +635,8 @@ def random_case(kind):
         if kind == "hex":
             ctx.reached("hex-permutation")
         tags = random_tags(rng, mesh)
+        if tags.only:
+            ctx.reached("tags:" + tags.only)
         tagged = tags.apply(mesh)
         if rng.random() < 0.5:
             tagged.doflocs.setflags(write=False)
